@@ -53,6 +53,10 @@ CHECKS = {
    text="Solver-decided kernels: the real Graph.get_defective_nodes / is_variable_in_nonlinear_cycle / get_reachable_variables are executed path by path on symbolic adjacency labels and every feasible path is closed by an unsat query against a declarative specification, for ALL 3-node graphs (4 nodes with 8 symbolic edges in the thorough tier); Atom.get_normalized / to_arithm are shown equivalent to the comparison on the type for all operators and a family of finite types. Acceptance of the documented class is exercised by enumerating programs of the class (corpus + generated family): a refusal is a violation, known refusal mechanisms are listed by call site.",
    ref="DESIGN.md 3/C18", tech="per-path symbolic execution with z3 proxies (pathfork) of the classification and atom kernels; enumeration of class programs for acceptance (not a solver verdict, labelled as such)",
    note="Trusted: declarative specification of defective variables in checks/c18.py, z3. Universal acceptance over all program shapes is outside the reach of this technique: shapes are enumerated. Whatever is accepted is judged for correctness by C01 on the same corpus."),
+ "C15": dict(cat="other",
+   text="CPT assembly: the real NetworkTransformer.__add_cpt__ is executed path by path on symbolic probabilities for every combination of present notations and every path is closed by z3 against an overlay specification (accept iff rows complete and within tolerance; stored table = default, then table in column-major order, then entries). Generation and queries: CPT entries are symbols; the real CodeGenerator, query classes, parser and analysis run on them and the results are compared by z3 with enumeration of the joint law (every joint valuation after one iteration; E(X^k | evidence); 1/P(evidence)) for all CPT values in (0,1).",
+   ref="DESIGN.md 3/C15", tech="per-path symbolic execution (pathfork, floats as reals) of CPT assembly + symbolic-CPT execution of generator/queries with z3 equivalence to joint-law enumeration",
+   note="Trusted: the overlay specification and joint-law enumeration in checks/c15.py, vlib/sem.py (reads the generated text), z3. Lark parsing of BIF text is only validated on generated concrete texts; floats are modelled as reals; sampling-time queries use rational CPT values (the limit of a parametric geometric sequence is refused by sympy)."),
 }
 NA_REASON = "check not built yet in this session (see DESIGN.md section 3 for the planned solver-based check)"
 
